@@ -30,11 +30,13 @@ Proof.
 Qed.
 
 (* ================= GetNextAddress ================= *)
+Lemma in_length_pos {X} (x:X) l : In x l -> (1 <= length l)%nat.
+Proof. destruct l; simpl; [tauto | lia]. Qed.
+
 Section NextAddress.
 Variable nd : nat.
 Variable i : Z.
 Hypothesis Hi : 0 <= i < Z.of_nat nd.
-Variable restart : bool.
 Variable A : list Z.              (* the addresses held by the devices of the node when the search starts *)
 
 Definition devs_len (r:rnode) : Prop := length (n_devs (rn r)) = nd.
@@ -114,7 +116,7 @@ Hypothesis HA : (length A <= 251)%nat.
 Lemma Invk_bound r k a0 : (k <= 252)%nat -> Invk r k a0 -> (k <= length A)%nat.
 Proof. intros Hk (_ & _ & _ & _ & Hin). eapply pigeon; eauto. Qed.
 
-Lemma next_address_level : forall f1 f2 r k a0, (k <= 252)%nat -> Invk r k a0 -> (length A - k < f1)%nat -> (length A - k < f2)%nat ->
+Lemma next_address_level restart : forall f1 f2 r k a0, (k <= 252)%nat -> Invk r k a0 -> (length A - k < f1)%nat -> (length A - k < f2)%nat ->
   next_address f1 r i restart = next_address f2 r i restart.
 Proof.
   induction f1; intros f2 r k a0 Hk HI H1 H2.
@@ -127,14 +129,13 @@ Proof.
   destruct (negb (d_src (get_dev (rn r) i) =? d_claim_end (get_dev (rn r) i))); [|reflexivity].
   set (s1 := if d_src (get_dev (rn r) i) + 1 >? c_N2kMaxCanBusAddress then 0 else d_src (get_dev (rn r) i) + 1).
   assert (Es1 : s1 = run_addr a0 k).
-  { unfold s1, c_N2kMaxCanBusAddress. rewrite Hs. unfold run_addr. replace (Z.of_nat k) with (Z.of_nat (k - 1) + 1) by lia.
-    rewrite Z.add_assoc. rewrite (mod_inc 252 ((a0 + Z.of_nat (k - 1)) mod 252)) at 1.
-    - rewrite <- (Zplus_mod_idemp_l (a0 + Z.of_nat (k - 1)) 1 252).
-      pose proof (Z.mod_pos_bound (a0 + Z.of_nat (k - 1)) 252 ltac:(lia)) as Hm.
-      destruct (_ + 1 >? 251) eqn:E1; destruct (_ + 1 <? 252) eqn:E2; try lia.
-      + rewrite (mod_inc 252) by lia. rewrite E2. reflexivity.
-      + rewrite (mod_inc 252) by lia. rewrite E2. reflexivity.
-    - apply Z.mod_pos_bound; lia. }
+  { unfold s1, c_N2kMaxCanBusAddress. rewrite Hs. unfold run_addr.
+    replace (a0 + Z.of_nat k) with ((a0 + Z.of_nat (k - 1)) + 1) by lia.
+    set (x := a0 + Z.of_nat (k - 1)).
+    rewrite <- (Zplus_mod_idemp_l x 1 252).
+    pose proof (Z.mod_pos_bound x 252 ltac:(lia)) as Hm.
+    rewrite (mod_inc 252 (x mod 252) Hm).
+    destruct (x mod 252 + 1 >? 251) eqn:E1; destruct (x mod 252 + 1 <? 252) eqn:E2; lia. }
   destruct (set_src_facts r s1 false Hl) as (Hl1 & Hs1 & _). pose proof (set_src_others r s1 false Hl Ho) as Ho1.
   destruct (same_as_sibling (set_src r i s1 false) i) eqn:Esas; [|reflexivity].
   pose proof (sas_in _ Hl1 Ho1 Esas) as Hin1. rewrite Hs1, Es1 in Hin1.
@@ -146,16 +147,16 @@ Proof.
 Qed.
 
 (* the first round: from any 8-bit address *)
-Lemma next_address_top f1 f2 r : devs_len r -> others_in r -> 0 <= d_src (get_dev (rn r) i) <= 255 ->
+Lemma next_address_top restart f1 f2 r : devs_len r -> others_in r -> 0 <= d_src (get_dev (rn r) i) <= 255 ->
   (length A < f1)%nat -> (length A < f2)%nat -> next_address f1 r i restart = next_address f2 r i restart.
 Proof.
   intros Hl Ho Hr H1 H2. destruct f1; [lia|]. destruct f2; [lia|]. cbn [next_address].
   destruct (d_src (get_dev (rn r) i) =? c_N2kNullCanBusAddress) eqn:E254.
-  - destruct restart eqn:Er; [|reflexivity].
+  - destruct restart; [|reflexivity].
     destruct (set_src_facts r 14 true Hl) as (Hl1 & Hs1 & _). pose proof (set_src_others r 14 true Hl Ho) as Ho1.
     destruct (same_as_sibling (set_src r i 14 true) i) eqn:Esas; [|reflexivity].
-    pose proof (sas_in _ Hl1 Ho1 Esas) as Hin1. rewrite Hs1 in Hin1. subst restart.
-    apply (next_address_level f1 f2 _ 1%nat 14); try lia.
+    pose proof (sas_in _ Hl1 Ho1 Esas) as Hin1. rewrite Hs1 in Hin1. pose proof (in_length_pos _ _ Hin1) as Hpos.
+    apply (next_address_level true f1 f2 _ 1%nat 14); try lia.
     split; auto. split; auto. split; [lia|]. split; [rewrite Hs1; reflexivity|].
     intros j Hj. assert (j = O) by lia. subst. exact Hin1.
   - destruct (negb (d_src (get_dev (rn r) i) =? d_claim_end (get_dev (rn r) i))); [|reflexivity].
@@ -163,9 +164,9 @@ Proof.
     assert (Hs1r : 0 <= s1 < 252) by (unfold s1, c_N2kMaxCanBusAddress; destruct (_ >? 251) eqn:E; lia).
     destruct (set_src_facts r s1 false Hl) as (Hl1 & Hs1 & _). pose proof (set_src_others r s1 false Hl Ho) as Ho1.
     destruct (same_as_sibling (set_src r i s1 false) i) eqn:Esas; [|reflexivity].
-    pose proof (sas_in _ Hl1 Ho1 Esas) as Hin1. rewrite Hs1 in Hin1.
+    pose proof (sas_in _ Hl1 Ho1 Esas) as Hin1. rewrite Hs1 in Hin1. pose proof (in_length_pos _ _ Hin1) as Hpos.
     assert (Es : run_addr s1 0 = s1) by (unfold run_addr; simpl; rewrite Z.add_0_r; apply Z.mod_small; lia).
-    apply (next_address_level f1 f2 _ 1%nat s1); try lia.
+    apply (next_address_level restart f1 f2 _ 1%nat s1); try lia.
     split; auto. split; auto. split; [lia|]. split; [rewrite Hs1; simpl; auto|].
     intros j Hj. assert (j = O) by lia. subst. rewrite Es. exact Hin1.
 Qed.
@@ -175,7 +176,7 @@ Theorem next_address_fuel nd ns mx r i restart f1 f2 : WF nd ns mx r -> (nd <= 2
   next_address f1 r i restart = next_address f2 r i restart.
 Proof.
   intros (Hl & Hd & _) Hn Hi H1 H2.
-  apply (next_address_top nd i Hi restart (map d_src (n_devs (rn r)))); try (rewrite map_length, Hl; lia).
+  apply (next_address_top nd i Hi (map d_src (n_devs (rn r)))); try (rewrite map_length, Hl; lia).
   - exact Hl.
   - intros j Hj _. apply in_map. apply nth_In. rewrite Hl. auto.
   - unfold get_dev. apply (znth_Forall dev_ok); auto. apply ddev_ok.
